@@ -162,10 +162,12 @@ def harmonic_set(a: PointTensor, b: PointTensor, c: PointTensor) -> PointTensor:
     if n > 3:
         e = join(l, o, _normalize_result=False)
         basis = e.basis_matrix
-        a = a._matrix_transform(basis)
-        b = b._matrix_transform(basis)
-        c = c._matrix_transform(basis)
-        o = o._matrix_transform(basis)
+        # coordinates with respect to the orthonormal basis of e (hermitian products for complex points)
+        coordinates = np.conjugate(basis)
+        a = a._matrix_transform(coordinates)
+        b = b._matrix_transform(coordinates)
+        c = c._matrix_transform(coordinates)
+        o = o._matrix_transform(coordinates)
 
         l = join(a, b)
 
